@@ -221,7 +221,7 @@ def check_C10(sc, v, tier, seed, replay):
     r = sc.run("rec-nassec", ["dlmsgs", seed, 60])
     msgs = json.loads(r.stdout.strip().splitlines()[-1])
     pairs = [(0, 2), (1, 2), (2, 2), (0, 1), (1, 1), (2, 1)]
-    nh, steps = (8, 24) if tier == "quick" else (24, 200)
+    nh, steps = (8, 24) if tier == "quick" else (48, 400)
     lines, idn = [], 0
     for h in range(nh):
         enc, integ = pairs[h % 6]
@@ -1064,9 +1064,9 @@ def _nas_cases(rnd, table, shapes, tier):
             subsets = [list(c) for r in range(k + 1) for c in itertools.combinations(range(k), r)]
         else:
             subsets = [[], list(range(k))] + [[i] for i in range(k)]
-            for _ in range(200 if tier != "quick" else 12):
+            for _ in range(400 if tier != "quick" else 12):
                 subsets.append([i for i in range(k) if rnd.random() < 0.5])
-        reps = 1 if tier == "quick" else 3
+        reps = 1 if tier == "quick" else 6
         iso_idx = [i for i in range(k) if (name, t["opt"][i][0]) in isolated]
         subsets = [[i for i in sub if i not in iso_idx] for sub in subsets] + [[i] for i in iso_idx for _ in range(3)]
         for sub in subsets:
